@@ -90,9 +90,12 @@ patch_on_decided()
 
 
 # -------------------------------------------------------------------------------------------------
+GAMMAS = [0, 1, 2, 3]
+
+
 def gamma_options(ex):
     """Definition contexts: [], [None], [Some(lit)], [None, Some(lambda)]."""
-    k = ex.choose(4)
+    k = GAMMAS[ex.choose(len(GAMMAS))] if len(GAMMAS) > 1 else GAMMAS[0]
     if k == 0:
         return VecV(), []
     if k == 1:
@@ -397,6 +400,8 @@ def confirm(H, label, case):
 
 
 def validate(H, n):
+    if H.worker:
+        return
     replay = H.get_replay()
     ex, it = H.engine()
     ex.frames.append(Frame(ex._new_solver()))
